@@ -69,6 +69,14 @@ CLAIMED.update({
         tech=TECH_V + '; ' + TECH_K),
 })
 
+CLAIMED.update({
+    'C19': dict(
+        cat='model_checking', ref='DESIGN 4/C19',
+        text='Bounded model checking (Kani/CBMC) of the real VarName implementation against a specification written in the harness: == is equality ignoring ASCII case, cmp is lexicographic order on the uppercased bytes and consistent with ==, names differing only in letter case hash identically (same write sequence into a recording hasher, across the 16-byte chunk boundary), interned names read back in canonical spelling. Bounded, so labelled model checking, not proof.',
+        note='Bounds: ASCII names of at most 5-6 bytes for ==/cmp (quick), 18 bytes for the hash law and four interned names (thorough, 90-140 s each). Not covered: non-ASCII names, the phf lookup behind FromStr / from_compact / From<&HeaderName>, arbitrary Hashers beyond "same write sequence". Strings are built with from_utf8_unchecked over ASCII-constrained bytes in the harness (validity by construction).',
+        tech='bounded model checking of the real code (Kani/CBMC), stand-in: no contract within reach of Verus (str) or of a complete Kani harness'),
+})
+
 NA = {
     'C07': 'async connection loop (Token::run / parse_request / close) under all transport schedules: async fn, Pin, Context and generic AsyncRead/AsyncWrite are outside the Verus dialect and Kani diverges on the real async code (probe: no result in 15 min); no per-call contract within reach expresses the property',
     'C08': 'liveness / absence of a wait-for cycle between server task and peer: a whole-history property under a waker-driven executor; contracts on single calls cannot express it',
@@ -79,12 +87,7 @@ NA = {
     'C14': 'shutdown ordering under thread interleavings of Arc drops and waker registration: same as C13',
 }
 PENDING = {
-    'C01': 'request-parser unit under construction in this session (contracts on request.rs); not claimed until every obligation is discharged',
-    'C06': 'aligned_bufsize / stuck-detection contracts under construction in this session',
-    'C11': 'parser-level half (abort in Params / in streams) under construction in this session',
-    'C16': 'NVIter::next contract + lemma unit under construction in this session',
-    'C19': 'bounded Kani harnesses for VarName under construction in this session',
-    'C20': 'bounded Kani harnesses for the CGI response writers under construction in this session',
+    'C20': 'generic writers over impl Write / IntoIterator and http::StatusCode are outside the Verus dialect; under Kani write_headers does not finish within 400 s even for status 200 with <= 2 two-byte headers (StatusCode tables, canonical_reason); only simple_redirect has a (bounded) harness, which does not decide the property, so it is not claimed',
 }
 
 
